@@ -288,7 +288,8 @@ def finalize(m, tier):
     return {
         "rule": "chain lane: 18 value/reward candidate classes + valid blocks on generated trees, conservation checked from "
                 "the real unspent maps after every accepted block; direct lane: real transaction/reward validators on "
-                "synthetic ledgers with values up to and beyond the maximum supply; distinct = distinct candidates / "
-                "(ledger, outputs) cases by digest",
+                "synthetic ledgers with values up to and beyond the maximum supply; node lane: the same classes delivered over the "
+                "wire to a real node with a miner emulated inside the validation window; rejected candidates offered again; "
+                "distinct = distinct candidates / (ledger, outputs) cases by digest",
         "floors": floors, "extra": {},
     }
